@@ -23,6 +23,17 @@ type Scn struct {
 	c01.Scn
 	Queue int `json:",omitempty"`
 	Hex   int `json:",omitempty"`
+	// Cur: where the terminal's cursor is when the application starts (1-based row, column; zero = home).
+	// A program started after other output on the line (printf x; app) finds it anywhere, and an xterm-like
+	// terminal keeps it across the switch to the alternate screen.
+	Cur [2]int `json:",omitempty"`
+}
+
+// CursorSession: Session on a terminal whose cursor is not at home when the application starts.
+func CursorSession(mask int, alt bool, variant, row, col int) *Scn {
+	sc := Plain(Session(mask, alt, variant))
+	sc.Kind, sc.Cur = "caps-cursor", [2]int{row, col}
+	return sc
 }
 
 // Plain wraps a c01 scenario (default queue, upper-case hex): executed by the c01 executor itself.
@@ -45,12 +56,13 @@ func HexSession(mask int, alt bool, variant, hexcase int) *Scn {
 // Run executes a session. Sessions without the C07 extras go through the c01 executor unchanged; the others
 // through the same steps with the extra option / reply form (cells, cursor, render/refresh frames, Close).
 func Run(ctx *c01.Ctx, sc *Scn) (evs []trace.Ev, note string) {
-	if sc.Queue == 0 && sc.Hex == 0 {
+	if sc.Queue == 0 && sc.Hex == 0 && sc.Cur == [2]int{} {
 		return c01.Run(ctx, &sc.Scn)
 	}
 	caps := responder.FromMask(sc.Mask, sc.Alt)
 	caps.XTVersion, caps.DA1Class, caps.HexCase = sc.TermID, sc.DA1Class, sc.Hex
-	s, err := sess.Start(sess.Config{Caps: caps, Cols: sc.Cols, Rows: sc.Rows, Opts: vaxis.Options{EventQueueSize: sc.Queue}})
+	s, err := sess.Start(sess.Config{Caps: caps, Cols: sc.Cols, Rows: sc.Rows, CurRow: sc.Cur[0], CurCol: sc.Cur[1],
+		Opts: vaxis.Options{EventQueueSize: sc.Queue}})
 	if err != nil {
 		return nil, "start: " + err.Error()
 	}
